@@ -26,14 +26,18 @@ def digraphs(n):
         yield [list(p) for k, p in enumerate(pairs) if mask >> k & 1]
 
 
-_ORDER = {"rng": None}
+_ORDER = {"rng": None, "nx": 0.0, "hist": 0.0}
+_HIST = {"phase": None, "slots": [], "pos": 0}
 
 
-def scramble_insertions(rng):
-    """From now on mk_graph / mk_bipartite / mk_digraph insert the edges in a random order (and,
-    for simple graphs, random orientation): the abstract graph handed to the specification is the
-    same, only the history that built the implementation's object differs."""
-    _ORDER["rng"] = rng
+def scramble_insertions(rng, nx=0.15, hist=0.25):
+    """From now on mk_graph / mk_bipartite / mk_digraph build the same abstract graph by another history:
+    the edges are inserted in a random order (and, for simple graphs, random orientation); with
+    probability nx the graph is handed over as a networkx object (nodes and edges inserted in a random
+    order); with probability hist (decided in build()) the generator is first run on an intermediate
+    state of the very same object, which is then updated to the requested graph and used again.  The
+    abstract graph handed to the specification is the same in every case."""
+    _ORDER.update(rng=rng, nx=nx, hist=hist)
 
 
 def _order(edges, flip=False):
@@ -48,28 +52,103 @@ def _order(edges, flip=False):
     return es
 
 
-def mk_graph(n, edges):
-    from cnfgen.graphs import Graph
-    G = Graph(n)
-    for u, v in _order(edges, flip=True):
+def _new(kind, n, r):
+    from cnfgen.graphs import Graph, BipartiteGraph, DirectedGraph
+    return Graph(n) if kind == "simple" else DirectedGraph(n) if kind == "digraph" else BipartiteGraph(n, r)
+
+
+def _as_networkx(kind, n, r, edges):
+    import networkx
+    rng = _ORDER["rng"]
+    if kind == "bipartite":
+        X = networkx.Graph()
+        lft, rgt = [(u, 0) for u in range(1, n + 1)], [(n + v, 1) for v in range(1, r + 1)]
+        nodes = []                  # numbering inside a side follows the order of insertion: kept ascending
+        while lft or rgt:
+            src = lft if (lft and (not rgt or rng.random() < .5)) else rgt
+            nodes.append(src.pop(0))
+        for x, side in nodes:
+            X.add_node(x, bipartite=side)
+        for u, v in _order(edges):
+            if rng.random() < .5:
+                X.add_edge(u, n + v)
+            else:
+                X.add_edge(n + v, u)
+        return X
+    X = networkx.DiGraph() if kind == "digraph" else networkx.Graph()
+    nodes = list(range(1, n + 1))
+    rng.shuffle(nodes)
+    X.add_nodes_from(nodes)
+    X.add_edges_from(_order(edges, flip=(kind == "simple")))
+    return X
+
+
+def _mk(kind, n, r, edges):
+    rng = _ORDER["rng"]
+    target = [tuple(e) for e in edges]
+    if _HIST["phase"] == "pre":
+        # an intermediate state: for simple graphs one edge replaced by a non-edge (same counts) when
+        # possible, otherwise one edge still missing
+        inter = list(target)
+        if inter:
+            gone = inter.pop(rng.randrange(len(inter)))
+            if kind == "simple":
+                have = {frozenset(e) for e in target}
+                non = [(u, v) for u in range(1, n + 1) for v in range(u + 1, n + 1) if frozenset((u, v)) not in have]
+                if non and rng.random() < .7:
+                    inter.append(rng.choice(non))
+        G = _new(kind, n, r)
+        for u, v in _order(inter, flip=(kind == "simple")):
+            G.add_edge(u, v)
+        _HIST["slots"].append((G, inter))
+        return G
+    if _HIST["phase"] == "post" and _HIST["pos"] < len(_HIST["slots"]):
+        G, inter = _HIST["slots"][_HIST["pos"]]
+        _HIST["pos"] += 1
+        key = (lambda e: frozenset(e)) if kind == "simple" else (lambda e: tuple(e))
+        want, have = {key(e) for e in target}, {key(e) for e in inter}
+        for e in inter:
+            if key(e) not in want:
+                G.remove_edge(*e)
+        for u, v in _order([e for e in target if key(e) not in have], flip=(kind == "simple")):
+            G.add_edge(u, v)
+        return G
+    if rng is not None and _HIST["phase"] is None and rng.random() < _ORDER["nx"]:
+        return _as_networkx(kind, n, r, target)
+    G = _new(kind, n, r)
+    for u, v in _order(target, flip=(kind == "simple")):
         G.add_edge(u, v)
     return G
 
 
+def mk_graph(n, edges):
+    return _mk("simple", n, 0, edges)
+
+
 def mk_bipartite(L, R, edges):
-    from cnfgen.graphs import BipartiteGraph
-    B = BipartiteGraph(L, R)
-    for u, v in _order(edges):
-        B.add_edge(u, v)
-    return B
+    return _mk("bipartite", L, R, edges)
 
 
 def mk_digraph(n, edges):
-    from cnfgen.graphs import DirectedGraph
-    D = DirectedGraph(n)
-    for u, v in _order(edges):
-        D.add_edge(u, v)
-    return D
+    return _mk("digraph", n, 0, edges)
+
+
+def _call(thunk):
+    """The generator call; when scrambling is on, sometimes preceded by a call on an intermediate state of
+    the same graph object(s)."""
+    rng = _ORDER["rng"]
+    if rng is None or rng.random() >= _ORDER["hist"]:
+        return thunk()
+    _HIST.update(phase="pre", slots=[], pos=0)
+    try:
+        try:
+            thunk()
+        except Exception:
+            pass
+        _HIST.update(phase="post" if _HIST["slots"] else None, pos=0)
+        return thunk()
+    finally:
+        _HIST.update(phase=None, slots=[], pos=0)
 
 
 def gid(edges):
@@ -83,7 +162,7 @@ def build(rec_id, fam, par, thunk, graph=None, extra=None):
     if graph is not None:
         rec["graph"] = graph
     try:
-        F = thunk()
+        F = _call(thunk)
     except Exception as e:  # the outcome is judged by the specification
         rec["outcome"] = type(e).__name__
         rec["nvars"] = 0
